@@ -45,6 +45,12 @@ def gen_history(rng, schema, n_ops, ordered=False):
             push(FO.gen_crate_op(rng, st, hostile=False))
         elif r < 0.28 and is_v2(schema):
             push(FO.gen_foreign_reorder(rng, st))
+        elif r < 0.31 and is_v2(schema):
+            # entity columns only Engine DJ writes (the membership reference that ties a parent list's entry to a child list's):
+            # set by SQL on every / every other entry; what the crates contain is not affected
+            push(({"op": "raw_exec", "sql": "UPDATE PlaylistEntity SET membershipReference = %d%s" %
+                   (rng.choice([1, 2, 7, 2 ** 31]), rng.choice(["", " WHERE id % 2 = 0", " WHERE id % 2 = 1"]))},
+                  {"kind": "foreign_marks"}))
         else:
             push(FO.gen_membership_op(rng, st))
     return ops, metas
@@ -690,6 +696,8 @@ def metas_from_ops(ops):
             metas.append({"kind": o, "c": op["c"]})
         elif o == "remove_track":
             metas.append({"kind": o, "t": op["t"]})
+        elif o == "raw_exec":
+            metas.append({"kind": "foreign_marks"})
         elif o == "foreign_reorder":
             metas.append({"kind": "foreign_reorder_entries", "c": op["c"]} if "c" in op else
                          {"kind": "foreign_reorder_siblings", "parent": op["siblings_of"]})
